@@ -259,10 +259,16 @@ def check_case(case):
     rng.shuffle(order)
     by_size_desc = sorted(plates, key=lambda k_: -int(plates[k_].size))
     _scorers = {}
+    # another scorer object with a tiny triple budget is used first and stays alive, and one more is constructed after each scorer
+    # under test: a scorer's budget and batch size are its own
+    decoy_first = gd.GaussianDBALScorer(max_chunk=1, max_triples=2)
+    decoy_first.score(plates=dict(plates), distance_matrix=cdm, samples=holder, rng=np.random.default_rng(11), progress_bar=False)
+    decoys = [decoy_first]
     for mc, keys in ((case["max_chunk"], sorted(plates)), (50, order), (case["max_chunk"], order), (2, by_size_desc)):
         scorers = _scorers
         if mc not in scorers:  # one scorer object per batch size, reused for the later passes
             scorers[mc] = gd.GaussianDBALScorer(max_chunk=mc, max_triples=math.comb(n, 3) + 3)
+            decoys.append(gd.GaussianDBALScorer(max_chunk=mc + 1, max_triples=1))
         scorer = scorers[mc]
         got = scorer.score(plates={k: plates[k] for k in keys}, distance_matrix=cdm, samples=holder, rng=np.random.default_rng(7), progress_bar=False)
         require(sorted(int(k) for k in got) == sorted(plates), "scorer.keys", lambda: "scored plate ids %r, candidates %r" % (sorted(int(k) for k in got), sorted(plates)))
